@@ -126,6 +126,11 @@ def run(tier):
         ops.append({"what": "special name " + n, "vars": [(n, gql.parse_type("Filter")), ("other", gql.parse_type("Int!"))],
                     "doc": Doc([Op("mutation", "Op", [Field("touch")], [(n, "Filter", None), ("other", "Int!", None)])])})
     ops.append({"what": "no variables", "vars": [], "doc": Doc([Op("query", "Op", [Field("version")])])})
+    # variables that declare a default value in the operation (a None still has to be written as the options say)
+    dflt = [("first", "Int", "3"), ("msg", "String", '"o, hai"'), ("flag", "Boolean", "true"), ("ratio", "Float", "1.5"),
+            ("many", "[Int!]", "[1, 2]"), ("need", "Int!", "7"), ("plain", "String", None), ("rg", "Range", "{from: 1}")]
+    ops.append({"what": "variables with defaults", "vars": [(n, gql.parse_type(t)) for n, t, _ in dflt],
+                "doc": Doc([Op("query", "Op", [Field("version")], dflt)])})
     optsets = [{"skip_none": False, "normalization": "none"}, {"skip_none": True, "normalization": "none"},
                {"skip_none": False, "normalization": "rust"}, {"skip_none": True, "normalization": "rust"}]
     mods = []
